@@ -7,5 +7,6 @@ CONSTANTS
   MaxT = 4
   MaxEvents = 4
   MaxPerTick = 2
+  DrainAfterQuit = TRUE
 INVARIANTS DisplayedIsPartOfSent NothingLostWithoutCtrlO NoticesAlwaysDisplayed UnmutedAndUncancelledLosesNothing
 CHECK_DEADLOCK FALSE
